@@ -31,7 +31,7 @@ ASSUMPTIONS = [
     'FIFO ready queue; requests are placed between loop handles, not inside listener callbacks (as quantified)',
     'callbacks scheduled by steps do not fail (a failing callback legitimately ends the run at a schedule-dependent point)',
 ]
-EXPECTED_COUNTERS = ['probe:pause_mid_step', 'probe:play_while_pause_pending', 'probe:pause_in_waiting_step',
+EXPECTED_COUNTERS = ['kind:workchain', 'probe:pause_mid_step', 'probe:play_while_pause_pending', 'probe:pause_in_waiting_step',
                      'probe:resume_while_paused', 'probe:pause_then_play_same_position']
 KINDS = ['pause', 'play', 'resume']
 PROGRAM_CFG = {
@@ -60,10 +60,20 @@ def systematic(tier):
 
 
 def random_case(rng, tier):
-    program = programs.gen_process_program(rng, PROGRAM_CFG)
+    kinds = KINDS
+    if rng.random() < 0.25:
+        program = common.gen_workchain_with_awaitables(rng)
+        kinds = ['pause', 'pause', 'play', 'complete']
+    else:
+        program = programs.gen_process_program(rng, PROGRAM_CFG)
     ticks, notify, _ = common.dry_run(program)
     max_actions = 4 if tier == 'quick' else 6
-    schedule = common.gen_schedule(rng, KINDS, max_actions, ticks, notify, p_listener=0.0, must=['pause', 'play'])
+    schedule = common.gen_schedule(rng, kinds, max_actions, ticks, notify, p_listener=0.0, must=['pause', 'play'])
+    for action in schedule:
+        if action['act'] == 'complete':
+            # completes with the value the drive-out would use, so that the context is the same in every run
+            fut = rng.randrange(max(program.get('n_futures', 1), 1))
+            action.update(fut=fut, how='value', v=f'v{fut}')
     for action in schedule:
         if action['act'] == 'pause':
             action['msg'] = rng.choice([None, 'paused-by-env', 'p2'])
@@ -71,7 +81,19 @@ def random_case(rng, tier):
 
 
 def shrink(case):
-    return common.shrink_control(case)
+    if case['program'].get('kind') == 'workchain':
+        import copy
+        for i in range(len(case['schedule'])):
+            candidate = copy.deepcopy(case)
+            del candidate['schedule'][i]
+            yield candidate
+        for i, action in enumerate(case['schedule']):
+            if action.get('at', 0) > 0:
+                candidate = copy.deepcopy(case)
+                candidate['schedule'][i]['at'] = action['at'] - 1
+                yield candidate
+        return
+    yield from common.shrink_control(case)
 
 
 def run(case):
@@ -95,6 +117,8 @@ def _oracle(engine, result, reference, drive):
     world, proc = engine.world, engine.proc
     events = world.events
 
+    if engine.case['program'].get('kind') == 'workchain':
+        result.counters['kind:workchain'] += 1
     same_position = {}
     for record in engine.records:
         kind = record.action['act']
@@ -132,7 +156,7 @@ def _oracle(engine, result, reference, drive):
             last_control = event[2]
         elif tag == 'act':
             last_context = event
-        elif tag in ('step', 'resumed'):
+        elif tag in ('step', 'resumed', 'wstep'):
             paused = event[5] if tag == 'step' else event[4]
             if paused:
                 result.violate('step_while_paused', f'{tag}',
